@@ -71,6 +71,7 @@ type originResp struct {
 
 type seenReq struct {
 	method, host, path, query string
+	uri                       string // the request target as the client library puts it on the wire
 	header                    http.Header
 	body                      io.ReadCloser
 	ctxErr                    error
@@ -86,7 +87,7 @@ type origin struct {
 
 func (o *origin) do(req *http.Request) (*http.Response, error) {
 	n := len(o.seen)
-	o.seen = append(o.seen, seenReq{method: req.Method, host: req.URL.Host, path: req.URL.Path, query: req.URL.RawQuery,
+	o.seen = append(o.seen, seenReq{method: req.Method, host: req.URL.Host, path: req.URL.Path, query: req.URL.RawQuery, uri: req.URL.RequestURI(),
 		header: req.Header.Clone(), body: req.Body, ctxErr: req.Context().Err()})
 	if o.onFetch != nil {
 		o.onFetch(n)
